@@ -672,6 +672,9 @@ func (e *Env) call(x *CE, pos bool) CV {
 			fail("has() needs a map: %s", x)
 		}
 		k = e.coerce(k, g.mapKeySort(mt))
+		if g.s.noDef == 0 && g.instGen == 0 && len(k.S) < 200 {
+			g.addInstTermGen(g.mapKeySort(mt), k.S) // a key a contract asks about
+		}
 		return g.cv("(select "+g.readHeap(e.st, g.mapHasHeap(mt), m.S)+" "+k.S+")", "Bool", nil)
 	case "local":
 		// local(x): the function's local variable x at this point (postconditions that pin down an
